@@ -1102,7 +1102,15 @@ def extract_tests_java(files, model, names):
                 if t1 != t2:
                     probs.append("build: incompatible types in '%s'" % s)
                 if cp is None:
-                    probs.append("build: cannot find symbol: class %s" % t1)
+                    suffix = "/" + "/".join(t1.split("."))
+                    full = sorted(c for c in infos if c.endswith(suffix))
+                    if full:
+                        why = " (the inline class is %s)" % full[0].replace("/", ".")
+                    elif t1.split(".")[-1] in infos:
+                        why = " (%s is a top-level class)" % t1.split(".")[-1]
+                    else:
+                        why = ""
+                    probs.append("build: cannot find symbol: class %s%s" % (t1, why))
                     o = Obj(t1.split(".")[-1], "?" + t1, None)
                     o.info = None
                 else:
